@@ -39,6 +39,7 @@ let axis_arg = function N -> None | I a -> Some a | _ -> failwith "axis"
 let in_axis a d = Z.leb Z0 a && Z.ltb a d
 let nodup l = List.length (List.sort_uniq compare (List.map iz l)) = List.length l
 let norm_ax d a = if Z.ltb a Z0 then Z.add a d else a
+let valid_ax a d = Z.leb (Z.opp d) a && Z.ltb a d
 
 (* ------------------------------------------------------------------ tile *)
 let tile_case s d reps =
@@ -56,7 +57,7 @@ let repeat_case s d r ax =
   | Some a ->
     let m = outcome_view (shape_repeat_axis s r a) (fun i -> sel s d (repeat_axis_index i r a)) in
     let sp = spec_build (np_repeat_axis_shape s r a) (fun i -> sel s d (some_or_unspec (np_repeat_axis_index i r a))) in
-    r3 m sp (posl s && Z.leb (zi 1) r && in_axis a (len s))
+    r3 m sp (posl s && Z.leb (zi 1) r && valid_ax a (len s))
 let repeat_list_case s d reps a =
   let m = outcome_view (shape_repeat_list s reps a) (fun i -> sel s d (repeat_list_index i reps a)) in
   let sp = if List.exists (fun x -> Z.ltb x Z0) reps then "unspecified" else
@@ -104,7 +105,7 @@ let () =
   register "repeat_l" (function [_; a; r; ax] -> let (s, d) = getA a in repeat_list_case s d (getL r) (getI ax) | _ -> failwith "repeat_l");
   register "repeat_ix" (function [_; s; i; r; ax] -> let s = getL s and i = getL i and r = getI r and a = getI ax in
       let m = (match shape_repeat_axis s r a with Val dst -> ix_out dst (idx_str (repeat_axis_index i r a)) | Nothing -> "nothing" | Trap -> "trap") in
-      let ok = posl s && Z.leb (zi 1) r && in_axis a (len s) in
+      let ok = posl s && Z.leb (zi 1) r && valid_ax a (len s) in
       let sp = (match np_repeat_axis_shape s r a, np_repeat_axis_index i r a with
                 | Some dst, Some j when inbb i dst -> ix_out dst (idx_str j) | _ -> "unspecified") in
       r3 m sp (ok && sp <> "unspecified")
@@ -138,7 +139,6 @@ let nth l k = List.nth l k
 let set_nth_ k v l = List.mapi (fun j x -> if j = k then v else x) l
 let drop_nth k l = List.filteri (fun j _ -> j <> k) l
 let np_ax a d = match np_axis a d with Some k -> Some (int_of_nat k) | None -> None
-let valid_ax a d = Z.leb (Z.opp d) a && Z.ltb a d
 let float_str n q = Printf.sprintf "%.17g" (float_of_int (iz n) /. float_of_int (iz q))
 let show_parts l = String.concat " | " l
 let operand_get sa da sb db = function
@@ -151,11 +151,11 @@ let take_case s d ind ax =
     let m = build (shape_take_none ind) (fun i -> sel s d (take_none_index s ind i)) in
     let sp = (try build (np_take_none_shape ind) (fun i -> getflat d (some_or_unspec (np_take_none_flat s ind (List.hd i))))
               with Not_found -> "unspecified") in
-    r3 m sp (posl s && List.for_all (fun x -> Z.leb zero x && Z.ltb x (prod s)) ind)
+    r3 m sp (posl s && List.for_all (fun x -> Z.leb (Z.opp (prod s)) x && Z.ltb x (prod s)) ind)
   | Some a ->
-    let m = build (shape_take_axis s ind a) (fun i -> sel s d (take_axis_index ind i a)) in
+    let m = build (shape_take_axis s ind a) (fun i -> sel s d (take_axis_index s ind i a)) in
     let sp = spec_build (np_take_axis_shape s ind a) (fun i -> sel s d (some_or_unspec (np_take_axis_index s ind i a))) in
-    let okd = in_axis a (len s) && (let n = nth s (iz a) in List.for_all (fun x -> Z.leb zero x && Z.ltb x n) ind) in
+    let okd = valid_ax a (len s) && (let n = nth s (iz (norm_ax (len s) a)) in List.for_all (fun x -> Z.leb (Z.opp n) x && Z.ltb x n) ind) in
     r3 m sp (posl s && okd)
 let compress_case c s d ax =
   let pos_ = np_true_positions c in
@@ -171,7 +171,7 @@ let compress_case c s d ax =
         | Some k when not (List.exists (fun x -> Z.leb (nth s k) x) pos_) ->
           build (set_nth_ k (len pos_) s) (fun i -> sel s d (set_nth_ k (nth pos_ (iz (nth i k))) i))
         | _ -> "unspecified") in
-    r3 m sp (posl s && in_axis a (len s) && sp <> "unspecified")
+    r3 m sp (posl s && valid_ax a (len s) && sp <> "unspecified")
 
 (* ------------------------------------------------------------------ resize / expand *)
 let resize_case s d dst =
@@ -203,7 +203,7 @@ let concat_case sa da sb db ax =
   | Some a ->
     let m = outcome_view (shape_concat_axis sa sb a) (fun i -> operand_get sa da sb db (concat_axis_index sa sb i a)) in
     let sp = spec_build (np_concat_axis_shape sa sb a) (fun i -> operand_get sa da sb db (np_concat_axis_index sa i a)) in
-    r3 m sp (posl sa && posl sb && in_axis a (len sa) && sp <> "unspecified")
+    r3 m sp (posl sa && posl sb && valid_ax a (len sa) && sp <> "unspecified")
 (* joined views: both operands reshaped (ra, rb) then concatenated along [axis] (model), NumPy: the reshapes only insert
    axes of extent 1, the element of a reshaped operand at j is its flat element number horner(j) *)
 let joined_case sa da sb db ra rb axis np_axis_ =
@@ -242,7 +242,7 @@ let diagonal_case s d off a1 a2 =
       | Some n1, Some n2 -> outcome_view (shape_diagonal s off a1 a2) (fun i -> sel s d (diagonal_index dn i off n1 n2))
       | _ -> "trap") in
   let sp = spec_build (np_diagonal_shape s off a1 a2) (fun i -> sel s d (some_or_unspec (np_diagonal_index dn i off a1 a2))) in
-  r3 m sp (posl s && sp <> "unspecified" && Z.leb zero off)
+  r3 m sp (posl s && sp <> "unspecified")
 let diagflat_case s d k =
   let n = prod s in
   let shp = shape_diagflat n k in
@@ -275,10 +275,10 @@ let () =
   register "take" take_h; register "take_e" take_h;
   register "take_ix" (function [_; s; ind; i; ax] -> let s = getL s and ind = getL ind and i = getL i and a = getI ax in
       let dst = shape_take_axis s ind a in
-      let m = ix_out dst (idx_str (take_axis_index ind i a)) in
+      let m = ix_out dst (idx_str (take_axis_index s ind i a)) in
       let sp = (match np_take_axis_shape s ind a, np_take_axis_index s ind i a with
           | Some dd, Some j when inbb i dd -> ix_out dd (idx_str j) | _ -> "unspecified") in
-      r3 m sp (posl s && in_axis a (len s) && sp <> "unspecified" && List.for_all (fun x -> Z.leb zero x) ind)
+      r3 m sp (posl s && valid_ax a (len s) && sp <> "unspecified")
     | _ -> failwith "take_ix");
   register "compress" (function [_; c; a; ax] -> let (s, d) = getA a in compress_case (getL c) s d (axis_arg ax) | _ -> failwith "compress");
   register "compress_e" (function [c; a; ax] -> let (s, d) = getA a in compress_case (getL c) s d (axis_arg ax) | _ -> failwith "compress_e");
@@ -298,7 +298,7 @@ let () =
       let show_op = function OpLeft j -> "a " ^ idx_str j | OpRight j -> "b " ^ idx_str j | OpNeither -> "neither" in
       let m = (match shape_concat_axis sa sb a with Val dd -> ix_out dd (show_op (concat_axis_index sa sb i a)) | _ -> "nothing") in
       let sp = (match np_concat_axis_shape sa sb a with Some dd when inbb i dd -> ix_out dd (show_op (np_concat_axis_index sa i a)) | _ -> "unspecified") in
-      r3 m sp (posl sa && posl sb && in_axis a (len sa) && sp <> "unspecified")
+      r3 m sp (posl sa && posl sb && valid_ax a (len sa) && sp <> "unspecified")
     | _ -> failwith "concat_ix");
   let stack_h = function [_; a; b; ax] | [a; b; ax] -> let (sa, da) = getA a and (sb, db) = getA b in
       let ax = getI ax in
@@ -387,7 +387,7 @@ let () =
     let sp = if Z.eqb p zero then "unspecified" else
         (let num = Z.mul (Z.sub stop start) q in
          let n = Z.max zero (Z.opp (Z.div (Z.opp num) p)) in show_elems n el) in
-    r3 m sp (not (Z.eqb p zero) && Z.leb zero (Z.mul (Z.mul (Z.sub stop start) q) p)) in
+    r3 m sp (not (Z.eqb p zero)) in
   register "arange" (function [a; b; p; q] -> arange_h (getI a) (getI b) (getI p) (getI q) | _ -> failwith "arange");
   register "arange_e" (function [a; b; p] -> arange_h (getI a) (getI b) (getI p) one | _ -> failwith "arange_e");
   register "arange2" (function [a; b] -> arange_h (getI a) (getI b) one one | _ -> failwith "arange2");
@@ -397,5 +397,5 @@ let () =
       let m = elems (fun i -> let (nu, de) = linspace_elem a b n e (zi i) in if Z.eqb de zero then "nan" else float_str nu de) in
       let sp = elems (fun i -> if Z.eqb n one then float_str a one else
                         let dv = if e then Z.sub n one else n in float_str (Z.add (Z.mul a dv) (Z.mul (zi i) (Z.sub b a))) dv) in
-      r3 m sp (Z.leb one n && not (e && Z.eqb n one))
+      r3 m sp (Z.leb one n)
     | _ -> failwith "linspace")
